@@ -7,11 +7,14 @@ CLAIMS = {
         "segment-boundary prefix, 404 otherwise), the answer is unique and depends only on the set of bindings, ports are ignored. The model's "
         "routing is tied to the real Router by command histories + route/request probes in every run.",
    note=TB + "Modelled stdlib: net.SplitHostPort. Prefixes are assumed normalised as NormalizePathPrefixes produces them (proved for that function)."),
- 'C05': dict(engine='control', technique='Lean 4 proof (invariant by induction over command histories incl. restarts) + differential correspondence run',
+ 'C05': dict(engine='control+proxy', technique='Lean 4 proof (invariants by induction over command histories incl. restarts, and over arbitrary concurrent schedules) + differential correspondence run',
    text="Theorem: for every command history (failing commands and restarts included) each (host, prefix) pair has one owner, in memory and in "
         "the state file; conflicts are refused leaving the table unchanged; redeploy/remove release pairs; of two serialised deploys claiming a "
-        "common pair the second is refused. Tied to the Router by histories over colliding host/prefix alphabets.",
-   note=TB + "The race clause relies on check+set being one critical section (installService); concurrent schedules are exercised by the proxy engine."),
+        "common pair the second is refused. For EVERY schedule of the concurrent model (racing deploys parked anywhere before their install "
+        "step included) two installed services never hold the same host and every table entry refers to an existing object (C05_global_hosts, "
+        "induction over schedules). Tied to the Router by histories over colliding host/prefix alphabets, by hook-parked racing deploys, and by "
+        "the T1 fact that the availability check and the table update are one critical section of the router's write lock.",
+   note=TB + "The concurrent model binds one host label per service (paths and wildcard levels are covered by the sequential model); the atomicity of check+set in the source is the tie theorem tie_install_check_and_set_atomic."),
  'C06': dict(engine='control', technique='Lean 4 proof (case analysis over every command and error class) + differential correspondence run',
    text="Theorem: for every state and command, if the command reports an error the service table is untouched, the state file is untouched or "
         "rewritten from the untouched table, and every probe loop the command started was stopped (probed multiset and rotation unchanged). "
@@ -67,13 +70,17 @@ CLAIMS = {
         "snapshot while another runs.",
    note=TB + "The OS is modelled (atomic rename, kill between syscalls). T1 facts: saveStateSnapshot's step skeleton (lock, CreateTemp in the same directory, Rename)."),
 
-'C01': dict(engine='proxy', technique='Lean 4 proof (step-level theorems on the concurrent timed model + kernel-evaluated schedules) + differential correspondence run under a deterministic scheduler (synctest, hook parking)',
-   text="Theorems: a target is promoted and signals only on a successful probe of an adding target; the deploy passes its wait only when every "
-        "target of the new load balancer has signalled, otherwise it stays put until the deadline and then reports failure leaving table and "
-        "service objects untouched, with every probe loop of the new targets stopped; a claim only returns a member of the picked load "
-        "balancer's rotation. Tied by random schedules with failing/hanging/late probes and requests at any point, compared on deploy "
-        "results and on which generation's targets ever receive a client request.",
-   note=TB + "M4 is an interpreter of schedules; its atomic steps follow the code incl. its known defects. Partial: the theorems are about the model's step functions (local), whole-schedule invariants are carried by kernel-checked witnesses/tests and the correspondence run; probe I/O kinds are abstracted."),
+'C01': dict(engine='proxy', technique='Lean 4 proof (whole-schedule invariant of the concurrent timed model by induction over arbitrary schedules + step theorems) + differential correspondence run under a deterministic scheduler (synctest, hook parking)',
+   text="Theorems, for EVERY schedule of the concurrent model (any commands, requests, probe scripts, hook releases, clock advances, any "
+        "interleaving; proved by induction over schedules, Proofs/ProxyInv.lean): every load balancer a service object refers to exists and "
+        "every one of its targets has raised its became-healthy signal (C01_global_slots); every request that picked a load balancer picked "
+        "such a one and every request in flight is at a signalled target (C01_global_requests); a deploy past its wait holds such a balancer "
+        "(C01_global_commands); a raised signal is backed by a probe of that target that succeeded (ghost field, C01_global_signal_backed); "
+        "rotations are drawn from their balancer's targets. Step theorems: promotion only on a successful probe of an adding target; the "
+        "deploy passes its wait only when all targets signalled, else fails at the deadline leaving table and objects untouched with probes "
+        "stopped. Tied by random schedules with failing/hanging/late probes, compared on deploy results and on which generation's targets "
+        "ever receive a client request, and by tie theorems on the order wait -> switch -> install in the source.",
+   note=TB + "M4 is an interpreter of schedules whose atomic steps follow the code. The invariant is proved of the model for all schedules; that the model's atomic steps are the code's is the tie (hook-parked correspondence + T1 skeletons). Probe I/O kinds are abstracted; restarts are not part of M4 (restored targets are marked healthy without a probe by design, see C11)."),
  'C02': dict(engine='proxy', technique='Lean 4 proof (step-level theorems + kernel-checked counter-example to the full statement) + differential correspondence run under a deterministic scheduler',
    text="The full statement is FALSE of the code (theorem C02_witness_stale_claim_refused, finding F2, replayed on the real code every run). "
         "Proved: the table swap is a single in-place update (no 404 window, other services untouched); after the F1 repair the healthy signal "
